@@ -49,7 +49,7 @@ theorem unbind_known_finding (id : Int) (cs : List Control) :
 /-! non-vacuity -/
 example : Rfc.decode (encMsg ⟨7, .extReq [49, 46, 50] (some [1, 2]), [.paged false 3 [] none]⟩)
     = some ⟨7, .extReq [49, 46, 50] (some [1, 2]), [.paged false 3 [] (some (pagedValue 3 []))]⟩ := by
-  decide
-example : Rfc.decode (encMsgRfc ⟨0, .unbind, []⟩) = some ⟨0, .unbind, []⟩ := by decide
+  rfl
+example : Rfc.decode (encMsgRfc ⟨0, .unbind, []⟩) = some ⟨0, .unbind, []⟩ := by rfl
 
 end Verif.C03
